@@ -832,6 +832,13 @@ class Interp(object):
             cache[key] = Top('name:' + n)     # cycles
             try:
                 cache[key] = self.ev(m.const_nodes[n], Frame(None, m, None, 0))
+                muts = getattr(m, 'mutations', {}).get(n)
+                if muts:
+                    # the module-level statements that fill / change the object after it has been bound
+                    fr = Frame(None, m, None, 0)
+                    fr.locals[n] = cache[key]
+                    self.block(muts, fr)
+                    cache[key] = fr.locals[n]
             except (Raise, AnalysisError):
                 cache[key] = Top('name:' + n)
         return cache[key]
@@ -1515,6 +1522,10 @@ class Interp(object):
     PURE_OS_PATH = ('splitext', 'basename', 'dirname', 'join', 'split', 'normpath', 'isabs', 'relpath', 'commonprefix')
 
     def apply(self, text, callee, args, kwargs, node, frame):
+        if text in ('dict.fromkeys', 'collections.OrderedDict.fromkeys', 'OrderedDict.fromkeys') and args and isinstance(args[0], (str, bytes, list, tuple)) \
+                and not _has_abstract(list(args[0])):
+            dv = args[1] if len(args) > 1 else None
+            return dict((k_, dv) for k_ in args[0])
         if text.startswith('os.path.') and text[8:] in self.PURE_OS_PATH and not kwargs and args and all(isinstance(a, str) for a in args) \
                 and text[8:] != 'relpath':
             import os as _os
